@@ -89,6 +89,14 @@ CLAIMS = {
          "against crossing parity, barycentric coordinates and cycle invariance; Polygon/Triangle/Rectangle/PolygonCollection/"
          "Segment.contains are replayed through the single-point and the collection code paths.",
     design="5/C16", technique="TLC exhaustive enumeration of grid polygons x query points with a winding-number oracle + replay"),
+ "C17": dict(
+    text="C17_Measures.tla: exact shoelace area, area centroid, vector area of embedded polygons, circumcentre, determinant volume, "
+         "cuboid surface on orthogonal integer frames, regular-polygon read-backs, and cyclic equality of vertex lists; TLC "
+         "certifies invariance under rotation/reversal of the vertex list and lattice translation, fan decomposition, the "
+         "embedding's area factor, equidistance of the circumcentre and symmetry of equality; geometer is replayed for Polygon/"
+         "Triangle/Rectangle/RegularPolygon/Simplex/Cuboid, for collection areas, items obtained by indexing/iteration and the "
+         "faces of polyhedra, and for == over all 24 orderings of quadrilateral vertex lists.",
+    design="5/C17", technique="TLC enumeration of grid polytopes with exact measure oracles + replay"),
 }
 
 checks = []
